@@ -38,13 +38,17 @@ class LostAnchor(Exception):
 # global dialect rules: applied, in order, to every extracted body before the unit's own
 # rules.  (name, regex, replacement).  Every application is counted and reported.
 GLOBAL_RULES = [
+    # rule 4: documented refusals are allowed divergence (must precede monomorphisation)
+    ("refuse.storaget", r"\bpanic!\(\s*\"StorageT is not big enough[^\"]*\"\s*\);?", r"refuse();"),
     # rule 2: monomorphisation of the index storage type
     ("mono.max_value", r"\bStorageT::max_value\(\)", r"$TMAX"),
     ("mono.one", r"\bStorageT::one\(\)", r"(1 as $T)"),
     ("mono.zero", r"\bStorageT::zero\(\)", r"(0 as $T)"),
     ("mono.type", r"\bStorageT\b", r"$T"),
     # rule 3: narrowing casts become obligations
-    ("narrow.as_", r"([A-Za-z_]\w*(?:\.\w+(?:\(\))?)*|\([^()]*(?:\([^()]*\)[^()]*)*\))\.as_\(\)", r"narrow_$T(\1)"),
+    ("builtin:narrow", "narrow", None),
+    ("mono.cast_unwrap", r"\bnum_traits::cast\(([^()]*)\)\.unwrap\(\)", r"(\1 as usize)"),
+    # rule 4: documented refusals are allowed divergence
     # rule 4: panics are obligations
     ("panic.assert", r"\b(?:debug_)?assert!\(", r"assert("),
     ("panic.unreachable", r"\bunreachable!\(\)", r"vpanic()"),
@@ -64,7 +68,7 @@ def _parse_kv(s):
     return out
 
 
-def extract(relpath, fn, nth=1, block=None, bnth=1, end=None, through=None):
+def extract(relpath, fn, nth=1, block=None, bnth=1, end=None, through=None, endx=None):
     """Return (text, first_line_no (1-based), sha256, fn_span) for the requested range."""
     path = os.path.join(REPO, relpath)
     if not os.path.exists(path):
@@ -102,6 +106,12 @@ def extract(relpath, fn, nth=1, block=None, bnth=1, end=None, through=None):
             cb2 = rustlex.match_brace(masked, ob2)
             eb = masked.find("\n", cb2)
             eb = b if eb < 0 or eb > b else eb
+        elif endx:
+            ends = [i for i, ln in enumerate(lines) if i > si and re.search(endx, ln)]
+            if not ends:
+                raise LostAnchor("end anchor `%s` not found after `%s` in fn %s" % (endx, block, fn))
+            ei = ends[0] - 1
+            eb = offs[ei] + len(lines[ei])
         elif end:
             ends = [i for i, ln in enumerate(lines) if i >= si and re.search(end, ln)]
             if not ends:
@@ -171,7 +181,79 @@ def builtin_strlit(seg, log, where):
     return "".join(out)
 
 
-BUILTINS = {"strlit": builtin_strlit}
+def _receiver_start(text, masked, p):
+    """p = index of the '.' of a method call; return start index of its receiver expression."""
+    i = p
+    while True:
+        j = i - 1
+        while j >= 0 and masked[j] in " \t\n":
+            j -= 1
+        if j < 0:
+            return i
+        c = masked[j]
+        if c in ")]":
+            opener = {")": "(", "]": "["}[c]
+            depth = 0
+            k = j
+            while k >= 0:
+                if masked[k] == c:
+                    depth += 1
+                elif masked[k] == opener:
+                    depth -= 1
+                    if depth == 0:
+                        break
+                k -= 1
+            if k < 0:
+                raise LostAnchor("unbalanced receiver before .as_()")
+            i = k
+            # a call/index: something (identifier / closing bracket) may precede the opener
+            j2 = k - 1
+            if j2 >= 0 and (masked[j2].isalnum() or masked[j2] in "_)]"):
+                continue
+            return i
+        elif c.isalnum() or c == "_":
+            k = j
+            while k >= 0 and (masked[k].isalnum() or masked[k] == "_"):
+                k -= 1
+            i = k + 1
+            # path or field/method chain continues?
+            j2 = k
+            while j2 >= 0 and masked[j2] in " \t\n":
+                j2 -= 1
+            if j2 >= 0 and masked[j2] == ".":
+                i = j2
+                continue
+            if j2 >= 1 and masked[j2 - 1:j2 + 1] == "::":
+                i = j2 - 1
+                continue
+            if j2 >= 0 and masked[j2] in "*&" :
+                return i
+            return i
+        elif c == "?":
+            i = j
+            continue
+        else:
+            return i
+
+
+def builtin_narrow(seg, log, where):
+    """dialect rule 3: `E.as_()` -> narrow_$T(E); the receiver E is found by bracket matching."""
+    k = 0
+    while True:
+        masked = rustlex.mask(seg)
+        p = masked.find(".as_()")
+        if p < 0:
+            break
+        st = _receiver_start(seg, masked, p)
+        recv = seg[st:p]
+        seg = seg[:st] + "narrow_$T(" + recv.strip() + ")" + seg[p + len(".as_()"):]
+        k += 1
+    if k:
+        log.append({"rule": "builtin:narrow", "matches": k, "where": where})
+    return seg
+
+
+BUILTINS = {"strlit": builtin_strlit, "narrow": builtin_narrow}
 
 
 def apply_rules(seg, rules, log, where):
@@ -310,7 +392,7 @@ def generate(tpl_path, width="u32", vacuity=False):
                 i += 1
             seg, first_line, sha = extract(
                 kv["file"], kv["fn"], int(kv.get("nth", 1)), kv.get("block"),
-                int(kv.get("bnth", 1)), kv.get("end"), kv.get("through"))
+                int(kv.get("bnth", 1)), kv.get("end"), kv.get("through"), kv.get("endx"))
             where = "%s::%s" % (kv["file"], kv["fn"])
             src_lines = seg.split("\n")
             g.sources.append({"file": kv["file"], "fn": kv["fn"], "block": kv.get("block"),
